@@ -53,7 +53,7 @@ pub fn subject_cfg(rng: &mut Rng, tier: Tier) -> GenCfg {
         fillers: rng.range(0, 8) as usize,
         actions,
         file_pool: rng.range(1, 4) as usize,
-        file_base: rng.usize_below(14),
+        file_base: rng.usize_below(24),
         leading_options: rng.chance(1, 4),
         misplaced_option: rng.chance(1, 6),
         allow_or: rng.chance(3, 4),
@@ -124,7 +124,8 @@ pub fn scenario(rng: &mut Rng, tier: Tier) -> Scenario {
     let w_thread = rng.range(0, 3);
     let w_epoch = rng.range(0, 3);
     let w_logger = rng.range(0, 2);
-    let total = w_parse + w_compile + w_render + w_iomap + w_unrelated + w_clock + w_thread + w_epoch + w_logger;
+    let w_env = rng.range(0, 2);
+    let total = w_parse + w_compile + w_render + w_iomap + w_unrelated + w_clock + w_thread + w_epoch + w_logger + w_env;
     let n_ops = rng.range(10, 60) as usize;
     let n_slots = rng.range(1, 4) as usize;
     let mut ops = vec![];
@@ -173,6 +174,8 @@ pub fn scenario(rng: &mut Rng, tier: Tier) -> Scenario {
             Op::SwitchThread { t: rng.usize_below(crate::hist::MAX_THREADS) }
         } else if take(w_epoch) {
             Op::NewEpoch
+        } else if take(w_env) {
+            Op::EnvChange
         } else {
             Op::LoggerLevel { level: rng.below(5) as u8 }
         };
